@@ -266,8 +266,15 @@ impl Flat {
         let built = match node {
             HNode::Term(p) => FNode::Term(*p),
             HNode::Chance { info, outs } => {
+                // probabilities proportional to the weights; weights near the top of the range
+                // are scaled down first (their sum would overflow)
                 let total: f64 = outs.iter().map(|(w, _)| w).sum();
-                let probs: Vec<f64> = outs.iter().map(|(w, _)| w / total).collect();
+                let probs: Vec<f64> = if total.is_finite() {
+                    outs.iter().map(|(w, _)| w / total).collect()
+                } else {
+                    let t2: f64 = outs.iter().map(|(w, _)| w / 4.0).sum();
+                    outs.iter().map(|(w, _)| (w / 4.0) / t2).collect()
+                };
                 // single-outcome chance nodes never share (cfr drops them before looking at
                 // their infoset); give them a private id
                 let cid = match info {
